@@ -621,6 +621,65 @@ def check_stop_ops(rec, out: Out):
         _stop_compare(rec, out, entry, "trim_stop_codons", want_trim, st, got)
 
 
+# --------------------------------------------- reading-frame selection (apps)
+def check_select(rec, out: Out):
+    """app.translate: select_translatable (then translate_seqs) and best_frame with their non-default arguments"""
+    api = Api.get()
+    code, s = rec["code"], J(rec["seq"])
+    allow_rc, frame, trim = rec["args"]
+    allowed = [(o[0][0], J(o[1]), J(o[2])) for o in rec["ret"]["allowed"]]
+    best = rec["ret"]["best"]
+    L = len(s)
+    where = f"best={best[0] if len(best) == 1 else ('none' if not best else 'several')}:Lmod3={L % 3}"
+    opts = f"allow_rc={int(allow_rc)}:frame={frame or 'None'}:trim={int(trim)}"
+    st, coll = call(lambda: api.old_coll("old-SequenceCollection", {NAME: s}))
+    if st != "ok":
+        out.fail("Select:construct", rec, "old-SequenceCollection", s, coll)
+        return
+    entry = "app.select_translatable"
+    st, app = call(lambda: api.app.select_translatable(moltype="dna", gc=code, allow_rc=allow_rc, trim_terminal_stop=trim, frame=frame or None))
+    st, got = call(lambda: app(coll)) if st == "ok" else (st, app)
+    out.count(entry)
+    res = None
+    if st == "ok" and type(got).__name__ == "NotCompleted":
+        st, got = "raised", str(got.message).strip().splitlines()[-1][:160]
+    if st == "raised":
+        if allowed:
+            out.fail(f"Select:{entry}:{opts}:{where}:refused", rec, entry, [a[1] for a in allowed], got, f"select_translatable({opts}) of {s} code {code}")
+    else:
+        d = got.to_dict()
+        res = d.get(NAME)
+        hit = [a for a in allowed if a[1] == res]
+        if not hit:
+            if not allowed:
+                diff = "not-refused"
+            elif res is not None and any(len(res) == len(a[1]) for a in allowed):
+                diff = "out-of-frame"
+            else:
+                diff = "wrong-extent"
+            out.fail(f"Select:{entry}:{opts}:{where}:{diff}", rec, entry, [a[1] for a in allowed], res, f"select_translatable({opts}) of {s} code {code}")
+        else:
+            # the selected sequences translate, in frame, to the protein the table gives
+            entry2 = "app.select_translatable+translate_seqs"
+            st, pep = call(lambda: api.translate_seqs(code, True)(got))
+            out.count(entry2)
+            if st == "ok" and type(pep).__name__ == "NotCompleted":
+                st, pep = "raised", str(pep.message).strip().splitlines()[-1][:160]
+            obs = pep.to_dict().get(NAME) if st == "ok" else pep
+            if obs != hit[0][2]:
+                out.fail(f"Select:{entry2}:{opts}:{where}:{'refused' if st == 'raised' else 'wrong-protein'}", rec, entry2, hit[0][2], obs)
+    if frame == 0 and trim:
+        entry = "app.best_frame"
+        st, got = call(lambda: api.app.best_frame(api.old_seq(s, "dna"), gc=code, allow_rc=allow_rc))
+        out.count(entry)
+        want = sorted(a[0] for a in allowed)
+        if st == "raised":
+            if want:
+                out.fail(f"Select:{entry}:allow_rc={int(allow_rc)}:{where}:refused", rec, entry, want, got)
+        elif got not in want:
+            out.fail(f"Select:{entry}:allow_rc={int(allow_rc)}:{where}:{'not-refused' if not want else 'wrong-frame'}", rec, entry, want, got)
+
+
 # ------------------------------------------------------ collections of 2 seqs
 def _pair_colls(api, s1, s2):
     data = {"s1": s1, "s2": s2}
@@ -845,6 +904,7 @@ DISPATCH = {
     "Synonyms": check_synonyms,
     "GetTranslation": check_get_translation,
     "StopOps": check_stop_ops,
+    "Select": check_select,
     "PairGetTranslation": check_pair_get_translation,
     "PairStopOps": check_pair_stop_ops,
     "Sym": check_sym,
